@@ -583,6 +583,17 @@ def f_fail(kind="fail"):
         }
     if kind == "plan_fails":
         return {"plan.py": script([tr("I", [], ["i.txt"]), ["exit", 3]])}
+    if kind in ("globprod1", "globprod2"):
+        # build 1 (globprod1): a.txt is static and a sub-plan globs *.txt; build 2 (globprod2): a.txt
+        # becomes the output of a step declared before the (unchanged, recycled, skipped) sub-plan,
+        # so only the end-of-build detection is left; notes.txt is an undeclared file that the same
+        # pattern matches
+        sub = script([["glob", "*.txt", {}]])
+        if kind == "globprod1":
+            root = [["static", "a.txt", "sub.py"], ["plan", "./sub.py"]]
+        else:
+            root = [["static", "sub.py"], tr("A", [], ["a.txt"]), ["plan", "./sub.py"]]
+        return {"plan.py": script(root), "sub.py": sub, "a.txt": "a\n", "notes.txt": "notes\n"}
     if kind == "child_and_plan_fail":
         # the child fails, then its creator fails: the child is detached and stays FAILED
         return {"plan.py": script([["step", "false", {"out": ["f.txt"]}], tr("I", [], ["i.txt"]),
